@@ -40,6 +40,9 @@ macro_rules! registry {
             "C09" => dispatch!($action, props::c09::C09, $ctx, $path),
             "C10" => dispatch!($action, props::c10::C10, $ctx, $path),
             "C11" => dispatch!($action, props::c11::C11, $ctx, $path),
+            "C05" => dispatch!($action, props::c05::C05, $ctx, $path),
+            "C06" => dispatch!($action, props::c06::C06, $ctx, $path),
+            "C07" => dispatch!($action, props::c07::C07, $ctx, $path),
             _ => {
                 eprintln!("unknown property {}", $id);
                 2
